@@ -836,7 +836,10 @@ func (c *Client) Call(ctx context.Context, procedure string, options wamp.Dict, 
 		if err != nil {
 			if abortMsg != nil {
 				_ = c.send(abortMsg)
-				c.sess.Close()
+				// End the session; the transport is closed by Close().
+				// Closing it here would make the sends of other goroutines,
+				// and the later Close(), panic.
+				c.sess.EndRecv(nil)
 			}
 
 			return nil, err
@@ -986,7 +989,10 @@ func (c *Client) CallProgressive(ctx context.Context, procedure string, sendProg
 		if err != nil {
 			if abortMsg != nil {
 				_ = c.send(abortMsg)
-				c.sess.Close()
+				// End the session; the transport is closed by Close().
+				// Closing it here would make the sends of other goroutines,
+				// and the later Close(), panic.
+				c.sess.EndRecv(nil)
 			}
 
 			return nil, err
@@ -1960,7 +1966,8 @@ func (c *Client) runHandleInvocation(msg *wamp.Invocation) {
 						},
 					}
 					_ = c.send(&abortMsg)
-					c.sess.Close()
+					// End the session; the transport is closed by Close().
+					c.sess.EndRecv(nil)
 					return
 				}
 
